@@ -19,6 +19,24 @@ CHECKS = {
  "C16": ("coverage-guided fuzzing (libFuzzer, clang ASan+UBSan) plus deterministic replay of seeds, seeded structural mutants and the accumulated corpus through the gcc ASan+UBSan+hardened-STL build, outcome classifier (returned / bpp::Exception / foreign exception / abort / hang / allocation ceiling)",
          "Ten entry-point groups (text utilities, tokenisers, keyval, options+variables+typed getters+wildcards, path helpers, table read/edit/write, distribution / interval / formula / vector descriptions); the first input bytes select the entry point and every option. Quick: all committed seeds, 37k seeded mutant cases (8 inputs each), the stored corpus, and 60k libFuzzer executions per group; thorough: 1.4M mutant cases and 9M executions per group. Any outcome other than return or bpp::Exception is a violation; time-outs and RSS/allocation ceilings stand for non-termination/unbounded allocation.",
          "6/C16"),
+ "C01": ("shadow-model monitor of Parameter/ParameterList/owner histories + enumerated interval algebra + guarded audit hook inside Parameter (every state change of every parameter, also library-internal ones); " + SAN,
+         "Interval algebra enumerated over a bound grid (finite, equal, infinite bounds x 4 open/closed combinations x test values of every order type incl. nextafter neighbours): isCorrect/includes/intersection/isEmpty/limits/readDescription against a 4-line model; random histories of construct/copy/assign/setValue/setConstraint/removeConstraint/list-level/owner-level updates with raise-leaves-state-unchanged; AutoParameter never raises and lands on the nearest accepted value; an 'internal' group drives distributions, simplexes, HMM matrices, reparametrisation wrappers and optimisers with the audit hook installed.",
+         "6/C01"),
+ "C03": ("shadow-model monitor (alias forest, independent set, constraint predicates) of alias/unalias/bulk-alias/update/copy/assign/rename histories, exhaustive short alias sequences, watchdog for bulk aliasing; " + SAN,
+         "Test double over AbstractParameterAliasable with 2..6 parameters; after every call all values, the independent list (names and object identity, write-through probe), getAliases/getAlias/getFrom, the intersected constraints of both ends of each link, refusal of double aliasing and cycles of any length (state unchanged), and the mutual independence of original and copy are compared with the model; bulk aliasing from a map in every key order must return or raise within the chunk watchdog.",
+         "6/C03"),
+ "C07": ("differential monitor against exact integer (__int128) and long-double references, identity checks for the log-domain family, exhaustive edge table for empty/length-one/mismatched operands; " + SAN,
+         "Every function family named in the statement on vectors of length 0..64 (small integers: exact; reals: rounding bound n*eps*sum|terms|), pairs of equal and unequal length with the documented exception or at least no abort, log-domain identities (shift equivariance, max <= lse <= max+log n, finiteness, logsum of two log-zeros), FDR against the Benjamini-Hochberg formula.",
+         "6/C07"),
+ "C10": ("recording test-double objective + oracles derived from the statement (descent, value/point consistency, budget, convergence on quadratics, feasibility of every evaluation under AUTO, bracketing) over all optimisers x dimensions x policies x tolerances; " + SAN,
+         "Random SPD quadratics (condition <= 1e3) and smooth convex non-quadratic objectives record every evaluation point; all optimisers of the statement, dims 1..6, random starts, interval constraints containing start and minimiser, three constraint policies, tolerances 1e-4..1e-10, small evaluation budgets. Two recorded findings (downhill-simplex stop rule; meta-optimiser with a 'step' simplex) are replayed separately and their class skipped in the bulk workload.",
+         "6/C10"),
+ "C17": ("generative round-trip monitor with reference recognisers (strict decimal grammar, 5-line glob matcher, reference tokeniser), exhaustive wildcard space; " + SAN,
+         "Numbers -> toString(17) -> parse; exhaustive/random strings near the decimal grammar against a reference recogniser + strtod; tokenise -> unparse over small-alphabet strings with all option combinations; nested tokenising vs bracket depth; procedure render -> parse -> changeKeyvals; ALL patterns and names over {a,b,*} up to length 8 through the three matching APIs against a glob matcher; variable resolution fixed point; tables <= 6x6 write -> read; every distribution family and nested compounds write -> read. Three recorded findings (writer cannot express median flag / fixed gamma offset / invariant value).",
+         "6/C17"),
+ "C19": ("differential monitor against a long-double implementation of the three codings, round-trip/injectivity/copy/history probes, audit hook on the simplex parameters; " + SAN,
+         "Methods 1-3, dimensions 1..33, with/without the zero-allowing constraint; parameter vectors in (0,1)^(n-1) incl. within 1e-9 of the ends -> non-negative probabilities summing to one; probability vectors with entries >= 1e-9 through constructor and setFrequencies -> returned within a conditioning-derived tolerance; injectivity by perturbation and parameter recovery; update routes and history independence; copy independence; OrderedSimplex order/sum/round trip.",
+         "6/C19"),
  "C20": ("reference-model monitor (bitset over the integer universe) executed after every operation of exhaustive and random histories; " + SAN,
          "Every operation sequence up to length 3 over the 0..6 universe (thorough; length 2 + sampled third operation in quick) and 30k..1.5M random histories of length <=12 over 0..24, for int/unsigned/double coordinates, are executed on the real MultiRange/RangeSet next to a bitset model; after each operation disjointness, order, union, total length, deep-copy independence and all Range predicates are compared. Held = no divergence and no sanitizer report on those executions.",
          "6/C20"),
